@@ -97,10 +97,10 @@ package ctlog
 //@   call ctlog.LockBackend.Create requires [C06] no-lock-entry: gLockFetches == 1 && gLockFetchFailed
 //@   call ctlog.LockBackend.Create requires [C06] no-published-checkpoint: gFetchTried["checkpoint"] && gFetchFailed["checkpoint"]
 //@   call ctlog.LockBackend.Create requires [C01,C06] empty-tree: c_new == checkpoint && isSignedFor(checkpoint, config, tree) && tree.N == 0 && tree.Hash == mth(emptySeq()) && tree.Time == timestamp
-//@   call ctlog.LockBackend.Create requires [C01] nothing-published-yet: !gUpTried["checkpoint"]
-//@   call ctlog.Backend.Upload "checkpoint" requires [C01] committed-first: gCreateOK == 1 && gCreateNew == c_data
+//@   call ctlog.LockBackend.Create requires [C01,C06] nothing-published-yet: !gUpTried["checkpoint"]
+//@   call ctlog.Backend.Upload "checkpoint" requires [C01,C06] committed-first: gCreateOK == 1 && gCreateNew == c_data
 //@   ensures [C06] refuse-existing: gCreateOK <= 1 && gReplaceTried == 0
-//@   ensures [C01] publish-implies-create: gUpTried["checkpoint"] ==> gCreateOK == 1
+//@   ensures [C01,C06] publish-implies-create: gUpTried["checkpoint"] ==> gCreateOK == 1
 
 //@ func ctlog.LoadLog props C01 C03 C06 C08
 //@   requires config != nil
@@ -108,9 +108,9 @@ package ctlog
 //@   call tlog.TileHashReader requires [C08] verify-against-lock-tree: c_tree == c.Tree
 //@   call ctlog.applyStagedUploads requires [C03] recover-only-when-behind: c1.N < c.N && c_stagedUploads == stagedUploads
 //@   returns [C06] refuse-fork-or-ahead: ret1 == nil ==> c1.N <= c.N && (c1.N == c.N ==> c1.Hash == c.Hash)
-//@   returns [C06,C08] both-verified: ret1 == nil ==> opensTo(lockedBytes(lock), config, c) && ckTimeOf(lockedBytes(lock)) == timestamp && opensTo(sth, config, c1)
+//@   returns [C01,C06,C08] both-verified: ret1 == nil ==> opensTo(lockedBytes(lock), config, c) && ckTimeOf(lockedBytes(lock)) == timestamp && opensTo(sth, config, c1)
 //@   returns [C03] recovered: ret1 == nil ==> (c1.N < c.N ==> gAppliedOK == 1)
-//@   returns [C01,C08] state-from-lock: ret1 == nil ==> ret0 != nil && ret0.tree.N == c.N && ret0.tree.Hash == c.Hash && ret0.tree.Time == timestamp && ret0.lockCheckpoint == lock && ret0.edgeTiles == edgeTiles && ret0.c == config
+//@   returns [C01,C08] state-from-lock: ret1 == nil ==> ret0 != nil && ret0.tree.N == c.N && ret0.tree.Hash == c.Hash && ret0.tree.Time == ckTimeOf(lockedBytes(lock)) && opensTo(lockedBytes(lock), config, c) && ret0.lockCheckpoint == lock && ret0.edgeTiles == edgeTiles && ret0.c == config
 //@   ensures [C01,C06] no-lock-write: gReplaceTried == 0 && gCreateOK == 0
 //@   ensures [C04] no-discard: gDiscarded == emptyset("set[string]")
 
@@ -128,6 +128,7 @@ package ctlog
 //@   requires l != nil && l.c != nil && !held(&l.issuersMu)
 //@   init gUp == emptyset("set[string]") && gFetchTried == emptyset("set[string]")
 //@   modifies gIssuerDone
+//@   call ctlog.Backend.Upload requires [C01,C04] issuer-key: hasPrefix(c_key, "issuer/") && c_key == path && c_data == issuer
 //@   returns [C04,C08] stored-or-compared: ret == nil ==> found || l.issuers[fingerprint] || (gUp[path] && gUpData[path] == issuer && gUpImm[path]) || (gFetchTried[path] && !gFetchFailed[path] && old__1 == issuer)
 //@   defines ret == nil ==> gIssuerDone == upd(old(gIssuerDone), issuer, true)
 //@   defines ret != nil ==> gIssuerDone == old(gIssuerDone)
@@ -178,7 +179,9 @@ package ctlog
 //@ census [C17] sequence-callers: callers ctlog.(*Log).sequence within ctlog.(*Log).RunSequencer in ctlog
 //@ census [C01,C06] lock-replace-sites: callers ctlog.LockBackend.Replace within ctlog.(*Log).sequencePool in ctlog
 //@ census [C01,C06] lock-create-sites: callers ctlog.LockBackend.Create within ctlog.CreateLog in ctlog
-//@ census [C01,C04] checkpoint-writers: callers ctlog.Backend.Upload "checkpoint" within ctlog.(*Log).sequencePool, ctlog.CreateLog in ctlog
+// Upload calls whose key is not a constant: uploadIssuer (key proved to start with "issuer/") and the replay of a
+// staging bundle in applyStagedUploads (keys are those staged by sequencePool, all tile paths).
+//@ census [C01,C04] checkpoint-writers: callers ctlog.Backend.Upload "checkpoint" within ctlog.(*Log).sequencePool, ctlog.CreateLog, ctlog.(*Log).uploadIssuer, ctlog.applyStagedUploads in ctlog
 //@ census [C03,C04] discard-sites: callers ctlog.Backend.Discard within ctlog.(*Log).sequencePool in ctlog
 //@ census [C02,C07] cacheput-sites: callers ctlog.(*Log).cachePut within ctlog.(*Log).sequencePool in ctlog
 //@ census [C07,C17] sequencepool-callers: callers ctlog.(*Log).sequencePool within ctlog.(*Log).sequence in ctlog
